@@ -53,6 +53,9 @@ CHECKS = {
  "C03": dict(level="exploration", technique="exhaustive enumeration of a shape-complete sugar family; unmodified generated code compiled with a logging user package by the real toolchain and run on every sentence up to a bound; action log compared with the post-order of the reference derivation tree",
    text="For every grammar of the family, the real generated parser (unmodified, compiled) runs every sentence up to the bound; the sequence of action calls, each argument and each result must be exactly the bottom-up, left-to-right traversal of the unique derivation tree, with the documented values for ? * + *! @list.",
    note="Trusted: internal/cfgref trees and the documented sugar values as implemented in cmd/loxmc/c03.go. Bounded by the family and sentence length.", ref="DESIGN.md section C03"),
+ "C06": dict(level="exploration", technique="exhaustive enumeration of a result-type x parameter-type matrix, list/optional/token/@error terms and binding layouts; verdict compared with an expected table cross-checked against go/types; every accepted binding compiled by the real toolchain with the unmodified generated files and run with sentinel values",
+   text="Every cell of the type matrix and every layout is generated: lox must accept exactly the bindings in which each production has one and only one assignable method, name the production or method otherwise, and every accepted package is really compiled and run so that each action parameter is shown to hold exactly the value produced for its term.",
+   note="Trusted: the assignability table in cmd/loxmc/c06.go (checked against go/types on every run); the fast ParseGo path.", ref="DESIGN.md section C06"),
 }
 
 NA_REASON = "check not built yet (work in progress; see DESIGN.md for the plan)"
